@@ -11,7 +11,7 @@ use crate::kit::{log_sink, sink_rows, Layout, ScriptSource};
 use crate::props::common::ORDERS3;
 use crate::rt::{EnvParams, Ev, Kind, Status};
 
-fn interval_case(l: Vec<i64>, r: Vec<i64>, lower: i64, upper: i64, bound: usize, keyed: bool) -> Scenario {
+pub fn interval_case(prefix: &str, l: Vec<i64>, r: Vec<i64>, lower: i64, upper: i64, bound: usize, keyed: bool) -> Scenario {
     // left/right: timestamps (ids = index), single key; contract: sources emit in timestamp order
     // with a watermark after every element
     let mut exp: Vec<Vec<i64>> = vec![];
@@ -57,6 +57,12 @@ fn interval_case(l: Vec<i64>, r: Vec<i64>, lower: i64, upper: i64, bound: usize,
         if !(nk >= 2 && kinds[nk - 1] == crate::kit::K_TERM && kinds[nk - 2] == crate::kit::K_FAR && kinds.iter().filter(|k| **k == crate::kit::K_FAR).count() == 1) {
             return Err(Fail::new("c08-interval-markers", format!("{d2}: behind the join the element kinds are {:?} (1 pair, 4 terminate, 5 end of iteration): expected pairs, one end of iteration, terminate", kinds)));
         }
+        // and the output respects the watermark contract (C06): no pair at or below a watermark
+        // the join has already forwarded
+        let sh: Vec<(u8, Option<i64>)> = r.log.iter().filter_map(|e| if let Ev::Probe(8, _, k, ts, _) = e { Some((*k, *ts)) } else { None }).filter(|(k, _)| *k != crate::kit::K_FB).collect();
+        if let Some((sig, msg)) = crate::e2::watermark_safety(&sh) {
+            return Err(Fail::new(format!("c06-interval-join-{sig}"), format!("{d2}: {msg}; (kind, timestamp) behind the join {:?}", sh)));
+        }
         let (n, rows) = sink_rows(&r.log, "sink0");
         if n != 1 {
             return Err(Fail::new("c08-interval-no-result", format!("{d2}: sink published {n} times")));
@@ -71,7 +77,7 @@ fn interval_case(l: Vec<i64>, r: Vec<i64>, lower: i64, upper: i64, bound: usize,
         Ok(hash_of(&r.log.iter().filter(|e| matches!(e, Ev::Note(..))).collect::<Vec<_>>()))
     });
     Scenario {
-        name: format!("C08/interval{}/lo{lower}-up{upper}/L{:?}/R{:?}", if keyed { "-keyed" } else { "" }, l, r).replace(' ', ""),
+        name: format!("{prefix}/interval{}/lo{lower}-up{upper}/L{:?}/R{:?}", if keyed { "-keyed" } else { "" }, l, r).replace(' ', ""),
         descr,
         params: EnvParams { free_kinds: vec![Kind::Driver, Kind::Select], ..Default::default() },
         body,
@@ -135,9 +141,9 @@ pub fn scenarios(tier: Tier) -> Vec<Scenario> {
     for (lo, up) in bounds {
         for l in &lists {
             for r in &lists {
-                out.push(interval_case(l.clone(), r.clone(), lo, up, if tier == Tier::Quick { 0 } else { 1 }, false));
+                out.push(interval_case("C08", l.clone(), r.clone(), lo, up, if tier == Tier::Quick { 0 } else { 1 }, false));
                 if l.len() == maxlen && r.len() == maxlen {
-                    out.push(interval_case(l.clone(), r.clone(), lo, up, if tier == Tier::Quick { 0 } else { 1 }, true));
+                    out.push(interval_case("C08", l.clone(), r.clone(), lo, up, if tier == Tier::Quick { 0 } else { 1 }, true));
                 }
             }
         }
